@@ -344,7 +344,7 @@ pub enum Op {
 }
 
 pub struct World {
-    pub svc: MemBrokerService,
+    pub svc: Arc<MemBrokerService>,
     pub limit: u64,
     pub ordered: bool,
     pub ttl: u64,
@@ -363,7 +363,7 @@ pub fn now_secs() -> i64 {
 impl World {
     pub fn new(limit: u64, ordered: bool, ttl: u64, quorum: u64) -> Result<Self, String> {
         Ok(Self {
-            svc: mk_service(limit, ordered, ttl, quorum, None)?,
+            svc: Arc::new(mk_service(limit, ordered, ttl, quorum, None)?),
             limit,
             ordered,
             ttl,
@@ -665,7 +665,7 @@ impl World {
                 let at_res = if self.snapshots.is_empty() { 0 } else { *at % self.snapshots.len() + 1 };
                 match mk_service(self.limit, self.ordered, self.ttl, self.quorum, snap) {
                     Ok(svc) => {
-                        self.svc = svc;
+                        self.svc = Arc::new(svc);
                         ("OK".into(), json!({"at": at_res}), json!({}))
                     }
                     Err(e) => ("harness_error".into(), json!({"at": at_res}), json!({ "e": e })),
